@@ -238,6 +238,7 @@ def c03(ctx):
 
 @prop("C05")
 def c05(ctx):
+    mc_calls(ctx, "MC_Calls", False, 3 if ctx.quick else 4, 5, ["TypeOK", "Inv_C05"])
     reader_check(ctx, "C05", (4, "{0, 7}", "Buf_noneB", "{TRUE, FALSE}", "Maxes_2"),
                  ["reader:total", "reader:mutate", "reader:sched_smallcap"], gen_args=(3, "{0, 5, 7}", "{TRUE, FALSE}"),
                  thorough_mc_args=(5, "{0, 7}", "Buf_noneB", "{TRUE, FALSE}", "Maxes_2"))
@@ -284,13 +285,25 @@ def c13(ctx):
     ctx.rule = "one evaluation = one run; each case runs one input (valid document with one injected fault of a class, or mutated document) under all 8 tolerance sets (and limits); relations P_C13 at the end of the case"
 
 
+def mc_calls(ctx, name, junk, maxlen, maxcalls, invariants, maxjunk=2):
+    consts = {"MaxLen": maxlen, "Sigma": SIGMA12, "MaxCalls": maxcalls, "JunkMode": "TRUE" if junk else "FALSE", "JunkBytes": "{144, 160, 255}", "MaxJunk": maxjunk}
+    r = C.tlc_mc(ctx.prop + "_" + name, "MC_ReaderCalls", cfg(constants=consts, invariants=invariants), workers=12, timeout=3000, heap="12g", coverage=False)
+    ctx.add_mc(r)
+    return r
+
+
 @prop("C14")
 def c14(ctx):
+    mc_calls(ctx, "MC_Junk", True, 3, 60, ["TypeOK", "Inv_C14", "Inv_Junk"], maxjunk=2 if ctx.quick else 3)
+    mc_calls(ctx, "MC_Calls", False, 3 if ctx.quick else 4, 5, ["TypeOK", "Inv_C14"])
     reader_check(ctx, "C14", None, ["reader:junk", "reader:total"], gen_args=None)
     ctx.rule = "one evaluation = one run; junk cases pair the run over a valid known-size document with a next/try_recover run over the document with junk inserted at a tag boundary; total cases interleave next/try_recover arbitrarily (monotone, no panic, fails only by eof/io)"
 
 
 @prop("C04")
 def c04(ctx):
+    consts = {"MaxLen": 4 if ctx.quick else 5, "Sigma": SIGMA12, "AllowSets": "{0}" if ctx.quick else "{0, 7}"}
+    r = C.tlc_mc("C04_MC_Pause", "MC_Pause", cfg(constants=consts, invariants=["Inv_C04", "Bounded"]), workers=12, timeout=3000, heap="12g", coverage=False)
+    ctx.add_mc(r)
     reader_check(ctx, "C04", None, ["reader:sched", "reader:sched_smallcap", "reader:cut"], gen_args=None)
     ctx.rule = "one evaluation = one run; each case holds the reference run (whole input at once) and runs under read schedules (every partition for inputs <= 8 bytes quick / 11 thorough, random otherwise), capacities 0..4096 and temporary EOFs at tag boundaries; relation P_C04 (equal results incl. first error)"
